@@ -107,3 +107,61 @@ Proof.
   unfold get_job, set_job. cbn [jobs]. replace (j' <? 0) with false by lia.
   rewrite Hjobs. destruct (j <? 0) eqn:Ej; [reflexivity|]. apply nth_upd_nth_other. lia.
 Qed.
+
+(* ------------------------------------------------------------ close() *)
+(* a pool that is not RUN accepts no new job of any kind *)
+Theorem closed_rejects_apply s so ha lo slot :
+  pstate s <> 0 ->
+  (do_apply s so ha lo slot = (s, RRefused) \/ do_apply s so ha lo slot = (s, RBlocked)).
+Proof.
+  intros Hp. unfold do_apply.
+  destruct ((match slot with Some b => b | None => putlocks s end) && (LaxSem.value (sem s) =? 0)); [right; reflexivity|].
+  replace (negb (pstate s =? 0)) with true by lia. left; reflexivity.
+Qed.
+
+Theorem closed_rejects_map s n cs : pstate s <> 0 -> do_map s n cs = (s, RRefused).
+Proof. intros Hp. unfold do_map. replace (negb (pstate s =? 0)) with true by lia. reflexivity. Qed.
+
+Theorem closed_rejects_imap s k n : pstate s <> 0 -> do_imap s k n = (s, RRefused).
+Proof. intros Hp. unfold do_imap. replace (negb (pstate s =? 0)) with true by lia. reflexivity. Qed.
+
+(* results of jobs submitted before close() are handled exactly as on a running pool:
+   the result and accept handlers do not look at the pool state at all *)
+Theorem ready_ignores_pool_state s q j i p :
+  do_ready (with_pstate s q) j i p = (with_pstate (fst (do_ready s j i p)) q, snd (do_ready s j i p)).
+Proof.
+  unfold do_ready.
+  change (cached (with_pstate s q) j) with (cached s j).
+  destruct (cached s j) as [x|]; [|reflexivity]. cbn [fst snd].
+  unfold bump_counter.
+  change (in_pool (with_pstate s q)) with (in_pool s).
+  destruct (worker_pids x) as [|w l]; [destruct (ready x); reflexivity|].
+  destruct (in_pool s w); destruct (ready x); reflexivity.
+Qed.
+
+Theorem ack_ignores_pool_state s q j i p :
+  do_ack (with_pstate s q) j i p = (with_pstate (fst (do_ack s j i p)) q, snd (do_ack s j i p)).
+Proof.
+  unfold do_ack.
+  change (cached (with_rst (with_pstate s q) (Restart.ack (rst (with_pstate s q)))) j)
+    with (cached (with_rst s (Restart.ack (rst s))) j).
+  destruct (cached (with_rst s (Restart.ack (rst s))) j) as [x|]; [|reflexivity].
+  destruct (kind x); try reflexivity. destruct i; reflexivity.
+Qed.
+
+(* close(): the pool stops accepting, every slot is handed back, nothing else changes *)
+Theorem close_effect s :
+  pstate s = 0 ->
+  fst (step s EClose) = with_sem (with_pstate (with_sigs s []) 1) (LaxSem.clear (sem s))
+  /\ LaxSem.value (sem (fst (step s EClose))) = Z.max (LaxSem.value (sem s)) (LaxSem.bound (sem s)).
+Proof.
+  intros Hp. unfold step. change (pstate (with_sigs s [])) with (pstate s). rewrite Hp. cbn. auto.
+Qed.
+
+(* the result counter of an Apply job is credited to the worker that owns it *)
+Theorem apply_result_credits_owner s x p :
+  kind x = KApply -> wp x = [p] -> in_pool s p = true ->
+  bump_counter s x = set_proc s p (fun q => mkproc (pid q) (widx q) (pexit q) (controlled q) (jterm q) (counter q + 1)).
+Proof.
+  intros Hk Hw Hp. unfold bump_counter, worker_pids. rewrite Hk, Hw, Hp. reflexivity.
+Qed.
